@@ -31,3 +31,4 @@ package satellite
 //@ func (*Cell).String
 //@ requires[C07] cell != nil
 //@ arith wrap
+//@ atcall[C08] fmt.Sprintf /^%2d \{%s\}$/: (cell.RangeWholeMillis == 255 ==> argstr(a1, 1) == "invalid")
